@@ -420,7 +420,7 @@ fn querier_strategy() -> BoxedStrategy<QCase> {
             k,
             full,
         });
-    (
+    let usual = (
         iftable(2),
         proptest::collection::vec(delivery, 1..10),
         prop_oneof![Just(20_000u64), Just(70_000), Just(300_000), 1000u64..600_000],
@@ -431,8 +431,24 @@ fn querier_strategy() -> BoxedStrategy<QCase> {
             deliveries,
             horizon_ms,
             rebrowse_ms,
-        })
-        .boxed()
+        });
+    // records that live for months to decades, watched for two to four months (the hourly query
+    // lists them with what is left of their life)
+    let long_lived = (
+        iftable(1),
+        0u64..4000,
+        0usize..4,
+        prop_oneof![Just(10_000_000u32), Just(1u32 << 31), Just(u32::MAX), 8_600_000u32..=u32::MAX],
+        proptest::bool::weighted(0.5),
+        4_300_000_000u64..10_000_000_000,
+    )
+        .prop_map(|(ifs, at_ms, inst, ttl, full, horizon_ms)| QCase {
+            ifs,
+            deliveries: vec![Delivery { at_ms, inst, ttl, flush: false, k: 0, full }],
+            horizon_ms,
+            rebrowse_ms: None,
+        });
+    prop_oneof![24 => usual, 1 => long_lived].boxed()
 }
 
 pub fn run(tier: Tier) -> i32 {
